@@ -97,6 +97,7 @@ def _run(ctx, replay):
             return r
 
     def one_round(lines, sd, label):
+        if sum(1 for v in viol if v['kind'] == 'crash') >= 2: return      # two crashed / hung rounds are evidence enough: do not wait for more deadlines
         path = ctx.sc.path('script_%d.txt' % stats['rounds'])
         with open(path, 'w') as f: f.write('\n'.join(lines) + '\n')
         e = dict(env, LC_ALL='C')
